@@ -1,12 +1,14 @@
 import H2V.Driver.Core
 import H2V.Driver.Codec
 import H2V.Driver.Wire
+import H2V.Driver.Comp
 open H2V H2V.Driver
 
 structure AllState where
   core : DState := {}
   codec : CState := {}
   wire : H2V.Spec.Wire.WSt := {}
+  comp : CompState := {}
 
 def stepLine (st : AllState) (line : String) : AllState × String :=
   let ws := (line.trimAscii.toString.splitOn " ").filter (· ≠ "")
@@ -18,7 +20,10 @@ def stepLine (st : AllState) (line : String) : AllState × String :=
     | none =>
       match handleWire st.wire ws with
       | some (w, out) => ({ st with wire := w }, out)
-      | none => (st, "bad-op")
+      | none =>
+        match handleComp st.comp ws with
+        | some (c, out) => ({ st with comp := c }, out)
+        | none => (st, "bad-op")
 
 partial def loop (hin : IO.FS.Stream) (hout : IO.FS.Stream) (st : AllState) : IO Unit := do
   let line ← hin.getLine
